@@ -17,7 +17,7 @@ pub struct C03 {
 }
 
 /// canonical names, written down independently of the crate's table (RFC 9110 / fetch spelling)
-pub const STD: [&str; 13] = [
+pub const STD: [&str; 38] = [
     "Cache-Control",
     "Content-Encoding",
     "Content-Language",
@@ -31,6 +31,33 @@ pub const STD: [&str; 13] = [
     "Access-Control-Allow-Origin",
     "WWW-Authenticate",
     "Content-Type",
+    // (appended later: every other standard response header that is neither framing nor set by the server itself nor
+    // reserved for the by-name entry point below — a misspelt name in the crate's table shows only on the header it is in)
+    "Accept-Ranges",
+    "Access-Control-Allow-Credentials",
+    "Access-Control-Allow-Headers",
+    "Access-Control-Allow-Methods",
+    "Access-Control-Expose-Headers",
+    "Access-Control-Max-Age",
+    "Alt-Svc",
+    "Cache-Status",
+    "CDN-Cache-Control",
+    "Content-Disposition",
+    "Content-Location",
+    "Content-Range",
+    "Content-Security-Policy",
+    "Content-Security-Policy-Report-Only",
+    "Cross-Origin-Embedder-Policy",
+    "Cross-Origin-Resource-Policy",
+    "Proxy-Authenticate",
+    "Referrer-Policy",
+    "Refresh",
+    "Retry-After",
+    "Sec-WebSocket-Accept",
+    "Sec-WebSocket-Protocol",
+    "Sec-WebSocket-Version",
+    "Strict-Transport-Security",
+    "X-Content-Type-Options",
 ];
 /// names used through the by-name entry point `.x()`: custom ones, and standard ones that no typed operation of this
 /// check touches (so that the two entry points never meet on one header)
@@ -115,7 +142,33 @@ fn set_std(res: &mut Response, h: u8, action: Action) {
         9 => go!(Link),
         10 => go!(AccessControlAllowOrigin),
         11 => go!(WWWAuthenticate),
-        _ => go!(ContentType),
+        12 => go!(ContentType),
+        13 => go!(AcceptRanges),
+        14 => go!(AccessControlAllowCredentials),
+        15 => go!(AccessControlAllowHeaders),
+        16 => go!(AccessControlAllowMethods),
+        17 => go!(AccessControlExposeHeaders),
+        18 => go!(AccessControlMaxAge),
+        19 => go!(AltSvc),
+        20 => go!(CacheStatus),
+        21 => go!(CDNCacheControl),
+        22 => go!(ContentDisposition),
+        23 => go!(ContentLocation),
+        24 => go!(ContentRange),
+        25 => go!(ContentSecurityPolicy),
+        26 => go!(ContentSecurityPolicyReportOnly),
+        27 => go!(CrossOriginEmbedderPolicy),
+        28 => go!(CrossOriginResourcePolicy),
+        29 => go!(ProxyAuthenticate),
+        30 => go!(ReferrerPolicy),
+        31 => go!(Refresh),
+        32 => go!(RetryAfter),
+        33 => go!(SecWebSocketAccept),
+        34 => go!(SecWebSocketProtocol),
+        35 => go!(SecWebSocketVersion),
+        36 => go!(StrictTransportSecurity),
+        37 => go!(XContentTypeOptions),
+        _ => unreachable!(),
     }
 }
 enum Action {
@@ -341,7 +394,7 @@ fn has_invalid_value(case: &Case) -> bool {
 impl Property for C03 {
     type Case = Case;
     const ID: &'static str = "C03";
-    const RULE: &'static str = "generated: status from the whole Status enum × GET/HEAD × a history of 0–40 (thorough: up to 400, long enough to wrap the 8-bit slot index) public Response operations (set/append/remove on 13 standard headers incl. Content-Type and the misspelt Content-Encoding, 4 custom names and 3 standard names through the by-name entry point `.x()`, Set-Cookie with directive subsets, set_text/html/json/payload, set_stream, drop_content, assignments to the public `status` field — the response goes out with the last one), biased toward re-use of the same header; values printable ASCII/UTF-8 of length 0–5000 without CR/LF/NUL; framing headers never set by hand. Executed inside a real handler, through the real router (complete, HEAD handling) and serializer into a Vec. Oracle: independent response parser + a model of the history (name → latest value under an independently written canonical-name table; appends joined with ', '), framing rules of the statement, bytes written ≤ bytes reserved (hook H3 turns an overrun into a panic). Non-trivial = remove followed by set/append of the same header, or ≥ 3 operations on one header, or a content replacement/drop, or status 204/304, or HEAD; distinct by case.";
+    const RULE: &'static str = "generated: status from the whole Status enum × GET/HEAD × a history of 0–40 (thorough: up to 400, long enough to wrap the 8-bit slot index) public Response operations (set/append/remove on 38 standard headers (every one that is neither framing nor server-set) incl. Content-Type and the misspelt Content-Encoding, 4 custom names and 3 standard names through the by-name entry point `.x()`, Set-Cookie with directive subsets, set_text/html/json/payload, set_stream, drop_content, assignments to the public `status` field — the response goes out with the last one), biased toward re-use of the same header; values printable ASCII/UTF-8 of length 0–5000 without CR/LF/NUL; framing headers never set by hand. Executed inside a real handler, through the real router (complete, HEAD handling) and serializer into a Vec. Oracle: independent response parser + a model of the history (name → latest value under an independently written canonical-name table; appends joined with ', '), framing rules of the statement, bytes written ≤ bytes reserved (hook H3 turns an overrun into a panic). Non-trivial = remove followed by set/append of the same header, or ≥ 3 operations on one header, or a content replacement/drop, or status 204/304, or HEAD; distinct by case.";
     const ASSUMPTIONS: &'static [&'static str] = &[
         "header values contain no CR/LF/NUL and Content-Length/Transfer-Encoding are never set by hand (documented as the user's responsibility)",
         "1xx and 304 are only checked for self-consistency (the statement does not mention them)",
